@@ -66,9 +66,19 @@ def boundary_codes() -> List[int]:
 
 MSG = "srv says: café   failed"
 MESSAGES = [("absent", None), ("empty", ""), ("text", MSG)]
+# texts that are special to printf-style, str.format and escape processing: they must come through verbatim
+SPECIAL_MESSAGES = [
+    ("percent-word", "100% invalid"), ("percent-escape-uri", "file:///a%20b.txt"), ("percent-s", "%s"), ("percent-d", "%d"),
+    ("percent-mapping", "%(x)s and %(code)d"), ("percent-percent", "%%"), ("lone-percent", "%"),
+    ("braces-empty", "{}"), ("braces-index", "{0} {1}"), ("braces-name", "{code} {message!r}"), ("braces-unbalanced", "{ }} {"),
+    ("backslashes", "C:\\dir\\new \\n \\u00e9 \\"), ("dollar-template", "$code ${message}"),
+]
+N_PLAIN_MESSAGES = len(MESSAGES)
+MESSAGES = MESSAGES + SPECIAL_MESSAGES
 DATAS = [("absent", "__absent__"), ("null", None), ("string", "s"),
          ("object", {"k": None, "é": [1]}), ("list", [1, None, {"k": "v"}])]
-SHAPES = [(mi, di) for mi in range(len(MESSAGES)) for di in range(len(DATAS))]
+SHAPES = ([(mi, di) for mi in range(N_PLAIN_MESSAGES) for di in range(len(DATAS))]
+          + [(mi, 0) for mi in range(N_PLAIN_MESSAGES, len(MESSAGES))])
 
 
 def error_obj(code: int, shape) -> Dict[str, Any]:
@@ -210,8 +220,11 @@ def _run_sm(cfg) -> Dict[str, Any]:
     viol: List[dict] = []
     counters = {"sm_calls": 0, "sm_unrepresentable": 0}
     got_all = set()
+    boundary = set(boundary_codes())
     for mode in ("parsed", "constructed"):
         for shape in SHAPES:
+            if mode == "constructed" and shape[0] >= N_PLAIN_MESSAGES and code not in boundary:
+                continue  # special texts through the second route: boundary codes only
             if not representable(shape, mode):
                 counters["sm_unrepresentable"] += 1
                 continue
@@ -242,8 +255,10 @@ def _run_helper(cfg) -> Dict[str, Any]:
         ret = None
     named_bool = sname in BOOL_HELPERS
     other_bool = (ret is bool or ret == "bool") and not named_bool
+    which = cfg.get("shapes", "all")
+    shapes = {"all": SHAPES, "plain": [sh for sh in SHAPES if sh[0] < N_PLAIN_MESSAGES], "few": [(1, 0), (2, 3)]}[which]
     for code in cfg["codes"]:
-        for shape in SHAPES:
+        for shape in shapes:
             if not representable(shape, "parsed"):
                 counters["helper_unrepresentable"] += 1
                 continue
@@ -378,8 +393,165 @@ def _run_record(cfg) -> Dict[str, Any]:
     return {"outcome": "recorded:" + cls, "violations": [], "counters": {"recorded:" + hd.short(cfg["helper"]) + ":" + cls: 1}}
 
 
+# ---------------------------------------------------------------------------
+# state carried between calls: the documented sets are module-level objects
+# ---------------------------------------------------------------------------
+def _module_state_problems() -> List[str]:
+    """How the errors module's code tables differ from the pinned sets right now ([] = intact)."""
+    from chuk_mcp.protocol.types import errors as E
+
+    out = []
+    P, R = set(PERMANENT), set(RETRYABLE)
+    lp, lr = getattr(E, "NON_RETRYABLE_ERRORS", None), getattr(E, "RETRYABLE_ERRORS", None)
+    if lp is None or lr is None:
+        return out  # the set-algebra part reports a missing table
+    if set(lp) != P:
+        out.append(f"NON_RETRYABLE_ERRORS is now {sorted(lp)} (documented {sorted(P)})")
+    if set(lr) != R:
+        out.append(f"RETRYABLE_ERRORS is now {sorted(lr)} (documented {sorted(R)})")
+    if set(lp) & set(lr):
+        out.append(f"the two sets share {sorted(set(lp) & set(lr))}")
+    tbl = getattr(E, "ERROR_MESSAGES", None)
+    if isinstance(tbl, dict) and set(tbl) != (P | R):
+        out.append(f"ERROR_MESSAGES keys are now {sorted(tbl)}")
+    return out
+
+
+def _restore_module_state() -> None:
+    """After a contamination has been REPORTED, put the tables back so that later executions in this
+    worker start from the documented state again (keeps the exploration deterministic)."""
+    from chuk_mcp.protocol.types import errors as E
+
+    for name, want in (("NON_RETRYABLE_ERRORS", set(PERMANENT)), ("RETRYABLE_ERRORS", set(RETRYABLE))):
+        cur = getattr(E, name, None)
+        if isinstance(cur, set) and cur != want:
+            cur.clear()
+            cur.update(want)
+
+
+def _state_guard(where: str, viol: List[dict], **sig) -> bool:
+    probs = _module_state_problems()
+    if probs:
+        viol.append({"sig": {"class": "documented-sets-changed-at-runtime", **sig},
+                     "msg": f"{where}: " + "; ".join(probs)})
+        _restore_module_state()
+        return False
+    return True
+
+
+def discover_errors_api() -> Dict[str, List[str]]:
+    """Public functions, exception classes and container constants of the errors module (introspection)."""
+    from chuk_mcp.protocol.types import errors as E
+
+    fns, classes, consts = [], [], []
+    for n, o in sorted(vars(E).items()):
+        if n.startswith("_"):
+            continue
+        if inspect.isfunction(o) and o.__module__ == E.__name__:
+            fns.append(n)
+        elif inspect.isclass(o) and o.__module__ == E.__name__:
+            classes.append(n)
+            for n2, o2 in sorted(vars(o).items()):
+                if not n2.startswith("_") and isinstance(o2, (classmethod, staticmethod)):
+                    fns.append(f"{n}.{n2}")
+        elif isinstance(o, (set, frozenset, dict, list)) and n.isupper():
+            consts.append(n)
+    return {"functions": fns, "classes": classes, "constants": consts}
+
+
+ORDER_CODES = [-32603, -32600, -32000, -32004, 0, -1, 2 ** 63]
+
+
+def _call_api(name: str) -> int:
+    """Call one public callable of the errors module with type-directed arguments for each probe code.
+    Returns the number of calls; exceptions the callable raises itself are its own business here."""
+    from chuk_mcp.protocol.types import errors as E
+
+    obj: Any = E
+    for part in name.split("."):
+        obj = getattr(obj, part)
+    n = 0
+    for code in ORDER_CODES:
+        fixed = {"code": code, "error": {"code": code, "message": "m", "data": {"requested": "x", "supported": ["y"]}}}
+        sig_params = inspect.signature(obj).parameters
+        try:
+            kw = hd.build_kwargs(obj, hd.Profile(rich=True), skip=(), fixed={k: v for k, v in fixed.items() if k in sig_params})
+        except hd.Uncallable as e:
+            raise core.HarnessError(f"public callable errors.{name} cannot be called with type-directed arguments: {e}") from None
+        try:
+            r = obj(**kw)
+            n += 1
+            if isinstance(r, BaseException):
+                str(r)
+                for m in ("to_json_rpc_error",):
+                    if hasattr(r, m):
+                        getattr(r, m)()
+        except Exception:  # noqa: BLE001
+            n += 1
+        if "code" not in sig_params and "error" not in sig_params:
+            break
+    return n
+
+
+def _classification_intact(viol: List[dict], after: str, counters: Dict[str, int]) -> None:
+    from chuk_mcp.protocol.messages.send_message import send_message
+    from chuk_mcp.protocol.types.errors import is_retryable_error
+
+    _state_guard(f"after calling {after}", viol, after=after.split("(")[0])
+    for c in boundary_codes():
+        try:
+            r = is_retryable_error(c)
+        except BaseException as e:  # noqa: BLE001
+            r = repr(e)
+        if r is not (c not in PERMANENT):
+            viol.append({"sig": {"class": "classification-wrong", "via": "is_retryable_error", "expected": expected_class(c),
+                                 "order": "after-other-call"},
+                         "msg": f"after calling {after}: is_retryable_error({c}) = {r!r}"})
+            break
+    for c in list(PERMANENT) + list(RETRYABLE):
+        err = {"code": c, "message": MSG}
+
+        def script(req, n, err=err):
+            return [hd.incoming({"jsonrpc": "2.0", "id": req["id"], "error": err})]
+
+        o = hd.drive(send_message, {"method": "tools/list"}, script, timeout=2.0)
+        counters["order_sm_calls"] = counters.get("order_sm_calls", 0) + 1
+        sub: List[dict] = []
+        _judge_raise(o, c, (2, 0), "send_message", sub, f"after calling {after}: code={c}")
+        for v in sub:
+            v["sig"] = {**v["sig"], "order": "after-other-call"}
+        viol.extend(sub[:2])
+
+
+def _run_order(cfg) -> Dict[str, Any]:
+    f, g = cfg["first"], cfg["second"]
+    viol: List[dict] = []
+    counters: Dict[str, int] = {"order_pairs": 1}
+    counters["order_api_calls"] = _call_api(f)
+    _classification_intact(viol, f, counters)
+    counters["order_api_calls"] += _call_api(g)
+    _classification_intact(viol, f"{f} then {g}", counters)
+    _restore_module_state()
+    return {"outcome": "order:" + ("intact" if not viol else "changed") + (":same" if f == g else ":pair"),
+            "violations": viol[:10], "counters": counters, "pair": [f, g]}
+
+
 def run_one(ctl: explorer.Ctl, cfg: Dict[str, Any]) -> Dict[str, Any]:
+    pre: List[dict] = []
+    _state_guard("at the start of an execution (left behind by an earlier call in this process)", pre, after="earlier-execution")
+    obs = _run_part(ctl, cfg)
+    post: List[dict] = []
+    _state_guard(f"at the end of part {cfg.get('part')}", post, after="part:" + str(cfg.get("part")))
+    if pre or post:
+        obs = dict(obs)
+        obs["violations"] = pre + list(obs.get("violations") or []) + post
+    return obs
+
+
+def _run_part(ctl: explorer.Ctl, cfg: Dict[str, Any]) -> Dict[str, Any]:
     part = cfg["part"]
+    if part == "order":
+        return _run_order(cfg)
     if part == "sets":
         return _run_sets(cfg)
     if part == "fn":
@@ -450,11 +622,21 @@ def run(tier: str, only=None) -> core.Result:
     sched.absorb(res, "i-sets-and-function", RUN, out, cfgs)
     samples = _pick("i-sets-and-function", cfgs)
 
+    # (i') every public callable of the errors module, in every order of pairs, classification re-checked after each call
+    api = discover_errors_api()
+    callables = api["functions"] + api["classes"]
+    ocfgs = [{"part": "order", "first": f, "second": g} for f in callables for g in callables]
+    out = explorer.explore(RUN, ocfgs)
+    sched.absorb(res, "i-call-order-pairs", RUN, out, ocfgs, min_outcomes=1)
+    samples += _pick("i-call-order-pairs", ocfgs)
+    sched.debug_pass(res, "i-call-order-pairs", RUN, ocfgs, every=7)
+
     # (ii) send_message x every code
     codes = all_codes()
     cfgs = [{"part": "sm", "code": c} for c in codes]
     out = explorer.explore(RUN, cfgs)
     sched.absorb(res, "ii-send_message-all-codes", RUN, out, cfgs)
+    sched.debug_pass(res, "ii-send_message-all-codes", RUN, cfgs, every=41)
     samples += _pick("ii-send_message-all-codes", cfgs, note=f"each x {len(SHAPES)} shapes x 2 incoming routes")
 
     # (iii) every typed request helper
@@ -472,15 +654,17 @@ def run(tier: str, only=None) -> core.Result:
     for h in req_helpers:
         for rich, arm in (profiles if tier == "quick" else profiles[:2]):
             for block in _chunks(hcodes, 4 if tier == "quick" else 8):
-                cfgs.append({"part": "helper", "helper": h["name"], "rich": rich, "arm": arm, "codes": block})
+                cfgs.append({"part": "helper", "helper": h["name"], "rich": rich, "arm": arm, "codes": block,
+                             "shapes": "all" if (rich, arm) == (False, 0) else "plain"})
     if tier == "quick":
         # the three boolean convenience calls get every code of the grid in both tiers
         for h in req_helpers:
             if hd.short(h["name"]) in BOOL_HELPERS:
-                for block in _chunks(codes, 8):
-                    cfgs.append({"part": "helper", "helper": h["name"], "rich": False, "arm": 0, "codes": block})
+                for block in _chunks(codes, 32):
+                    cfgs.append({"part": "helper", "helper": h["name"], "rich": False, "arm": 0, "codes": block, "shapes": "few"})
     out = explorer.explore(RUN, cfgs)
     sched.absorb(res, "iii-helpers-error-answer", RUN, out, cfgs)
+    sched.debug_pass(res, "iii-helpers-error-answer", RUN, cfgs, every=(29 if tier == "quick" else 211))
     # initialize helpers: texts that mention the protocol version, every code of the grid
     init_helpers = [h for h in req_helpers if "initialize" in hd.short(h["name"])]
     if init_helpers:
@@ -493,12 +677,19 @@ def run(tier: str, only=None) -> core.Result:
 
     # measured counts
     cnt: Dict[str, int] = {}
-    for p in res.parts.values():
+    dbg_exec = 0
+    for pname, p in res.parts.items():
+        if pname.endswith("+debug-logging"):
+            dbg_exec += p["executions"]  # re-runs of cases already counted: kept out of the headline numbers
+            continue
         for k, v in p["counters"].items():
             cnt[k] = cnt.get(k, 0) + v
     cov = res.coverage
     cov["samples"] = samples  # chosen by position in the enumeration, so identical from run to run
-    calls = cnt.get("sm_calls", 0) + cnt.get("helper_calls", 0) + cnt.get("baseline_calls", 0) + cnt.get("initpv_calls", 0)
+    cov["debug_logging_reruns"] = dbg_exec
+    cov["errors_module_api"] = api
+    cov["call_order_pairs"] = cnt.get("order_pairs", 0)
+    calls = cnt.get("order_sm_calls", 0) + cnt.get("sm_calls", 0) + cnt.get("helper_calls", 0) + cnt.get("baseline_calls", 0) + cnt.get("initpv_calls", 0)
     cov["evaluations"] = cnt.get("fn_evaluations", 0) + calls
     cov["driven_calls"] = calls
     cov["function_evaluations"] = cnt.get("fn_evaluations", 0)
@@ -514,12 +705,16 @@ def run(tier: str, only=None) -> core.Result:
     cov["exhaustive"] = True
     cov["rule"] = (
         "codes = every integer in -33100..-31900 and -200..200 plus +-2^31, +-2^63 (each -1/0/+1) and 2^64-1; "
-        "shapes = message {absent, empty, text with U+00E9/U+2028} x data {absent, null, string, object with null, list}; "
-        "(i) is_retryable_error on every code; (ii) send_message on every code x shape x incoming object built by "
+        "shapes = message {absent, empty, text with U+00E9/U+2028} x data {absent, null, string, object with null, list}, plus 13 messages "
+        "with percent signs (%s, %d, %(x)s, %%, 100% ..., %20), braces ({}, {0}, {code}, unbalanced), backslashes and $-templates (data absent; "
+        "through the constructor route and with optional-argument profiles only for the boundary codes / plain messages); "
+        "(i) is_retryable_error on every code; every public function / exception class of the errors module (introspection) called with 7 probe codes "
+        "in every ordered pair (f, g) - after each call the module's tables must still equal the documented sets, is_retryable_error must agree on the "
+        "boundary codes and send_message must classify all 14 named codes; the tables are also compared at the start and end of every execution; (ii) send_message on every code x shape x incoming object built by "
         "{parse_message, JSONRPCMessage(...)}; (iii) every discovered request helper x argument profiles "
         "{required only, all optionals, second Union arm} x "
         + ("boundary codes (named codes +-1, range edges, 0, +-1, +-200, 64-bit extremes)" if tier == "quick" else "every code of the grid")
-        + " x shape; ping / resources_subscribe / resources_unsubscribe x every code of the grid in both tiers"
+        + " x shape; ping / resources_subscribe / resources_unsubscribe x every code of the grid in both tiers (quick: 2 shapes per code)"
         + "; the initialize helpers additionally x every code x 4 messages mentioning 'protocol version' (different casings) and a message-less "
         "error through the constructor route (judged for every code but -32602)"
         + ".  str(e) may not name a code other than the one sent.  distinct_nontrivial = distinct observation digests of the blocks (a block = one code, or one helper x profile x <=8 codes); "
@@ -532,6 +727,9 @@ def run(tier: str, only=None) -> core.Result:
         "send_initialize documents a third exception: a -32602 error whose message mentions 'protocol version' is translated to "
         "VersionMismatchError (recorded under recorded_not_judged); for every other code such a text must still give the classified exception",
         "a helper annotated '-> bool' other than ping/subscribe/unsubscribe may either return False or raise the classified error",
+        "module-level state: a change of the documented sets at run time is reported (documented-sets-changed-at-runtime) and then undone by the harness "
+        "so that later executions of the same worker start from the documented state",
+        "a slice of every part is re-run with the library's logging enabled at DEBUG (parts named +debug-logging)",
         "the 64-bit part of the quantifier is replaced by the deterministic extremes +-2^31, +-2^63 (+-1) and 2^64-1",
     ]
     return res
